@@ -58,6 +58,7 @@ syntax "keep_auto" : tactic
 macro_rules | `(tactic| keep_auto) => `(tactic| repeat (first
   | keep_prim
   | refine keep_bind (by keep_prim) (fun _ _ _ _ => ?_)
+  | refine keep_bind (Q := T) (by split <;> keep_auto) (fun _ _ _ _ => ?_)
   | split
   | dsimp only))
 
